@@ -58,12 +58,18 @@ Fixpoint chainb (k : list frame) : bool :=
               end
   end.
 
-Definition main_cls (c : cls) : bool := match c with KChart | KEmit | KRun => true | _ => false end.
-Definition main_stack (k : list frame) : bool := forallb (fun f => main_cls (cls_of f)) k.
+(* the frames the task of PipelineChart.run may hold: chart frames, manager.run, and the emission of the two pipeline events *)
+Definition main_frame (f : frame) : bool :=
+  match f with
+  | FChartStart | FChartAfterStart | FChartAfterRun | FChartAfterEmitOk _ | FChartAfterEmitErr _ | FRunWait => true
+  | FEmit EvPipelineStart None _ _ _ _ | FEmit EvPipelineComplete None _ _ _ _ => true
+  | _ => false
+  end.
+Definition main_stack (k : list frame) : bool := forallb main_frame k.
 
 (* what a step may put in place of the frame it resumed *)
 Definition seg_ok (fr : frame) (k' : list frame) : Prop :=
-  k' <> [] /\ chainb k' = true /\ cls_of (last k' fr) = cls_of fr /\ (main_cls (cls_of fr) = true -> main_stack k' = true).
+  k' <> [] /\ chainb k' = true /\ cls_of (last k' fr) = cls_of fr /\ (main_frame fr = true -> main_stack k' = true).
 
 Definition dir_ok (fr : frame) (d : directive) : Prop :=
   match d with
@@ -74,7 +80,8 @@ Definition dir_ok (fr : frame) (d : directive) : Prop :=
 Lemma step_frame_dir_ok P t fr sg st : dir_ok fr (snd (step_frame P t fr sg st)).
 Proof.
   destruct fr; destruct sg; cbn [step_frame]; unfold default_or_raise; repeat break_match; cbn [snd dir_ok]; try exact I;
-    (split; [discriminate|split; [reflexivity|split; [reflexivity|cbn; intros H; first [reflexivity|discriminate]]]]).
+    (split; [discriminate|split; [reflexivity|split; [reflexivity|cbn; intros H; first [reflexivity|discriminate|
+      repeat match goal with Hx : context [match ?x with _ => _ end] |- _ => destruct x end; first [reflexivity|discriminate]]]]]).
 Qed.
 
 Lemma chainb_tail f r : chainb (f :: r) = true -> chainb r = true.
